@@ -40,3 +40,78 @@ func zzH_C05_repartition() {
 		zz.Assert(shards[i] == want, "row is placed in the shard the user function returned")
 	}
 }
+
+func zzPartFn(nshard int, k int64, v int64) int { return 0 }
+func zzFoldFn(acc int64, v int64) int64         { return acc + v }
+
+// zzH_C05_keyedDeps: every operator that redistributes by key (Reduce, Fold,
+// Cogroup, Reshuffle, Reshard to another shard count) consumes EVERY input
+// through a shuffle dependency with the default (key hash) partitioner --
+// whatever kind of slice the input is: a plain source, the output of
+// Reshuffle, of Repartition (placed by a user function, NOT by key), of
+// Reduce, or of another Cogroup. Otherwise equal keys of different inputs, or
+// of one input placed by a user function, would stay in different shards.
+func zzH_C05_keyedDeps() {
+	// placedByKey records, per input, whether its rows are already placed by
+	// the hash of the key (then an operator may legitimately skip the
+	// shuffle when shard counts agree; nothing is asserted about that).
+	placedByKey := map[Slice]bool{}
+	mk := func(tag string) (out Slice) {
+		base := Const(2, []int64{0, 1}, []int64{0, 1})
+		kind := zz.AnyIntIn(tag, 0, 4)
+		defer func() { placedByKey[out] = kind == 1 || kind == 3 || kind == 4 }()
+		switch kind {
+		case 1:
+			zz.Reach("input is Reshuffle output")
+			return Reshuffle(base)
+		case 2:
+			zz.Reach("input is Repartition output")
+			return Repartition(base, zzPartFn)
+		case 3:
+			zz.Reach("input is Reduce output")
+			return Reduce(base, func(a, b int64) int64 { return a + b })
+		case 4:
+			zz.Reach("input is Cogroup output")
+			return Cogroup(base)
+		}
+		return base
+	}
+	keyed := func(d Dep, what string) {
+		if !placedByKey[d.Slice] {
+			zz.Assert(d.Shuffle, what+": an input that is not placed by key (a source, or Repartition output placed by a user function) is consumed through a shuffle")
+		}
+		zz.Assert(d.Partitioner == nil, what+": rows are placed by the hash of their key, not by a custom partitioner")
+	}
+	switch zz.AnyIntIn("operator", 0, 4) {
+	case 0:
+		a, b := mk("inputA"), mk("inputB")
+		c := Cogroup(a, b)
+		zz.Assert(c.NumDep() == 2, "Cogroup depends on each of its inputs")
+		keyed(c.Dep(0), "Cogroup (first input)")
+		keyed(c.Dep(1), "Cogroup (second input)")
+		zz.Assert(c.NumShard() == 2, "Cogroup keeps the largest shard count of its inputs")
+	case 1:
+		in := mk("inputA")
+		if in.Out(1).Kind().String() != "int64" {
+			return // Reduce needs a scalar value column (Cogroup output has a slice column)
+		}
+		r := Reduce(in, func(a, b int64) int64 { return a + b })
+		keyed(r.Dep(0), "Reduce")
+	case 2:
+		in := mk("inputA")
+		if in.Out(1).Kind().String() != "int64" {
+			return
+		}
+		f := Fold(in, zzFoldFn)
+		keyed(f.Dep(0), "Fold")
+	case 3:
+		in := mk("inputA")
+		r := Reshuffle(in)
+		keyed(r.Dep(0), "Reshuffle")
+	case 4:
+		in := mk("inputA")
+		r := Reshard(in, 3)
+		zz.Assert(r.NumShard() == 3, "Reshard yields the requested shard count")
+		keyed(r.Dep(0), "Reshard")
+	}
+}
